@@ -199,6 +199,8 @@ def global_name(E, name):
 def attribute(E, e):
     st = E.st
     d = dotted(e)
+    if d is not None and d in E.c.externals and _root(e).id not in st.vars:
+        return V("fn", None, items=("external", d, None, None, None), py=d)
     if d is not None and e.value.__class__ is ast.Name and e.value.id not in st.vars:
         # module attribute
         base = global_name(E, e.value.id)
@@ -966,6 +968,8 @@ def call(E, e):
         return SPEC_FUNCS[d](E, e)
     if d is not None and d in E.c.opaque:
         return opaque_call(E, d, [E.ev(a) for a in e.args])
+    if d is not None and d in E.c.macros and st.spec:
+        return macro_call(E, d, [E.ev(a) for a in e.args])
     # 3. externals declared in the contract (by dotted name as written at the call site)
     if d is not None and d in E.c.externals:
         return external_call(E, d, E.c.externals[d], e)
@@ -1045,6 +1049,14 @@ def call_function(E, fv, args, kwargs, node):
         raise OutOfSubset(f"undeclared external {name}")
     if kind == "class":
         return construct(E, fv, args, kwargs, node)
+    if kind == "external":
+        return external_call(E, fv.items[1], E.c.externals[fv.items[1]], node, None, args, kwargs)
+    if kind == "uf":
+        _, f, atys, rty, _ = fv.items
+        zs = [E.coerce(a, parse_type(t)).z for a, t in zip(args, atys)]
+        r = V(strip_opt(parse_type(rty)), f(*zs))
+        E.assume_wf(r, is_opt(parse_type(rty)))
+        return r
     if kind == "method":
         raise OutOfSubset("bound container method as value")
     if kind == "lambda":
@@ -1869,6 +1881,20 @@ SPEC_FUNCS = {
     "lemma": spec_lemma,
     "tag": spec_tag,
 }
+
+
+def macro_call(E, name, args):
+    spec = E.c.macros[name]
+    st = E.st
+    saved = st.vars
+    st.vars = dict(zip(spec["names"], args))
+    for k in ("result",):
+        if k in saved:
+            st.vars.setdefault(k, saved[k])
+    try:
+        return E.ev(parse_spec(spec["body"]))
+    finally:
+        st.vars = saved
 
 
 def opaque_call(E, name, args):
